@@ -32,7 +32,10 @@ StrictKw == {"as", "break", "const", "continue", "crate", "else", "enum", "exter
              "unsafe", "use", "where", "while", "async", "await", "dyn"}
 ReservedKw == {"abstract", "become", "box", "do", "final", "macro", "override", "priv", "typeof", "unsized", "virtual", "yield", "try", "gen"}
 WeakKw == {"union", "raw", "safe", "auto", "default"}
-Keywords == StrictKw \cup ReservedKw \cup WeakKw
+\* the keywords that cannot be raw identifiers, written with punctuation that the case conversion strips (PascalCase is not
+\* injective: self_, _self, self-, Self. all become Self)
+Decorated == {"self_", "_self", "self-", "Self.", "crate_", "super-", "SELF", "cRate"}
+Keywords == StrictKw \cup ReservedKw \cup WeakKw \cup Decorated
 
 Space == IF Slice = "payload" THEN {[kind |-> "payload", at |-> p, cls |-> k] : p \in Sources, k \in Classes}
                                       \cup {[kind |-> "payload", at |-> "facet", cls |-> k] : k \in NumClasses}
